@@ -377,6 +377,8 @@ func main() {
 	}
 	ebytes()
 	ehead()
+	elong()
+	res.Info["E-long"] = "real time, response_timeout 1 s, read_timeout 3 s: the backend answers at once and sends ten events 300 ms apart; 2 engines x 3 profiles; the client receives all ten and a clean end"
 	eslow()
 	res.Info["E-slow"] = "the client stops reading after the headers of a 24 MiB response while the engine's clock moves 3 x 31 s (read timeout 30 s), then reads on: the complete body arrives; both engines, SSE and JSON"
 	res.Info["E-head"] = "real time: the backend accepts the request and never answers, response_timeout = read_timeout = 2 s, proxy and translated route, both engines: the exchange must end within 9 s"
